@@ -7,6 +7,9 @@ from contextlib import contextmanager
 from datetime import date, datetime, timedelta, timezone
 
 LEAN = ['ICal.Props.C14']
+# ops body_al_add / body_al_repeat run lean/ICal/Gen/BodiesAlarm.lean (Alarms._add, Alarms._repeat, tools.is_date regenerated
+# by tools/py2lean.py); Props.C14 imports it too (ICal.Lemmas.BodiesAlarm): a translator failure there breaks this tie
+DRIVER_MODULES = ['ICal.Driver.BodiesAlarm', 'ICal.Driver.Alarm']
 LEVEL = 'proof'
 FINGERPRINTS = ['alarms.Alarms', 'alarms.AlarmTime', 'cal.Alarm', 'cal.create_utc_property', 'tools.to_datetime',
                 'tools.normalize_pytz', 'tools.is_date', 'cal.Component.is_thunderbird']
@@ -658,6 +661,21 @@ def correspondence(ctx):
                     ctx.corr('al_wall', [str(wall(v)), str(td), str(res.utcoffset() // SEC), prov], enc_val(res))
                     continue
                 ctx.corr('al_add', [enc_val(v), str(td), prov], enc_val(al._add(v, timedelta(seconds=td))))
+                ctx.corr('body_al_add', [enc_val(v), str(td), prov], enc_val(al._add(v, timedelta(seconds=td))))
+            # the regenerated Alarms._repeat (generator, range loop) against the real one; no zoned values: their sums are
+            # wall-clock under zoneinfo (known finding), which `_add` above covers
+            from icalendar import Alarm
+            for _ in range(ctx.vol(300)):
+                v = mk_value(rand_start(ctx.rng, ctx.rng.choice(['date', 'float', 'utc'])))
+                rep = ctx.rng.choice([0, 0, 1, 2, 3, 5, -1])
+                dur = ctx.rng.choice([None, 0, 60, 3600, 86400, 90000, -3600, 172800, 43200])
+                alarm = Alarm()
+                if rep:
+                    alarm.REPEAT = rep
+                if dur is not None:
+                    alarm.DURATION = timedelta(seconds=dur)
+                ctx.corr('body_al_repeat', [enc_val(v), str(rep), '-' if dur is None else str(dur), prov],
+                         'ok:' + ','.join(enc_val(x) for x in al._repeat(v, alarm)))
             for i, spec in enumerate(specs):
                 nt = spec_nontrivial(spec)
                 hows = ('api', 'text', 'reparse') if i % 3 == 0 or i < len(CORPUS) else (('api', 'text')[i % 2],)
